@@ -7,7 +7,7 @@ From TLV Require Import Base.Shape Base.PyList Base.Tensor Base.BigSum Base.Ops 
   Proofs.FactorizedProofs Proofs.FactorizedProofs2 Proofs.FactorizedProofs3 Proofs.FactorizedProofs4
   Proofs.FactorizedProofs5 Proofs.FactorizedProofs6 Proofs.FactorizedProofs7 Proofs.FactorizedProofs8
   Proofs.FactorizedProofs9 Proofs.FactorizedProofs10 Proofs.FactorizedProofs11 Proofs.FactorizedProofs12 Proofs.FactorizedProofs13 Proofs.FactorizedProofs14
-  Proofs.BaseProofs6 Proofs.FactorizedProofs15 Proofs.FactorizedProofs16 Proofs.FactorizedProofs17 Proofs.FactorizedProofs18 Proofs.FactorizedProofs19 Proofs.FactorizedProofs20 Proofs.FactorizedProofs21 Proofs.FactorizedProofs22 Proofs.FactorizedProofs23 Proofs.FactorizedProofs24 Proofs.FactorizedProofs25 Proofs.FactorizedProofs26 Proofs.FactorizedProofs27 Proofs.FactorizedProofs28.
+  Proofs.BaseProofs6 Proofs.FactorizedProofs15 Proofs.FactorizedProofs16 Proofs.FactorizedProofs17 Proofs.FactorizedProofs18 Proofs.FactorizedProofs19 Proofs.FactorizedProofs20 Proofs.FactorizedProofs21 Proofs.FactorizedProofs22 Proofs.FactorizedProofs23 Proofs.FactorizedProofs24 Proofs.FactorizedProofs25 Proofs.FactorizedProofs26 Proofs.FactorizedProofs27 Proofs.FactorizedProofs28 Proofs.FactorizedProofs29 Proofs.FactorizedProofs30 Proofs.FactorizedProofs31 Proofs.FactorizedProofs32.
 From TLV Require Model.Tenalg.
 From Coq Require Import Sorting.Sorted Sorting.Permutation.
 Import ListNotations.
@@ -423,6 +423,49 @@ Theorem C03_tucker_cache_valid : forall (F : Type) (core : tensor F) (fs : list 
 Proof. exact tucker_cache_valid. Qed.
 Print Assumptions C03_tucker_cache_valid.
 
+(* HISTORIES (round 8): any finite sequence of __setitem__ operations each of which stores arrays of the shapes it replaces (cp_history_ok:
+   checked against the state the operation is applied to) - induction over the history.  CPTensor: after ANY such history on a constructed
+   object every view is the view of the (weights, factors) stored NOW, and the cache still is the validator's answer for the constructor's
+   arguments.  (Without the shape condition: C03_cp_setitem_stale_refuted.) *)
+Theorem C03_cp_history_views : forall (F : Type) (Op : fops F) (w : option (tensor F)) (fs : list (tensor F)) (o : cp_obj) (ops : list (cp_op F)),
+  cp_new Op w fs = Ok o -> cp_history_ok F o ops ->
+  let o' := cp_run F o ops in
+  (forall mask, cpo_to_tensor Op o' mask = cp_to_tensor Op (cpo_weights o') (cpo_factors o') mask) /\
+  (forall m, cpo_to_unfolded Op o' m = cp_to_unfolded Op (cpo_weights o') (cpo_factors o') m) /\
+  cpo_to_vec Op o' = cp_to_vec Op (cpo_weights o') (cpo_factors o') /\
+  cpo_normsq Op o' = cp_normsq Op (cpo_weights o') (cpo_factors o') /\
+  cpo_validate o' = validate_cp (cpo_weights o') (cpo_factors o') /\
+  validate_cp w fs = Ok (cpo_shape o', cpo_rank o').
+Proof. exact cp_history_views. Qed.
+Print Assumptions C03_cp_history_views.
+Example C03_cp_history_example :
+  let A := mk [2; 2] [1; 2; 3; 4]%Z in let B := mk [3; 2] [1; 0; 2; -1; 1; 1]%Z in
+  exists o, cp_new Zops None [A; B] = Ok o /\
+    cp_history_ok Z o [CSetF Z [mk [2; 2] [0; 1; 1; 0]%Z; B]; CSetW Z (Some (mk [2] [2; -1]%Z))] /\
+    cpo_weights (cp_run Z o [CSetF Z [mk [2; 2] [0; 1; 1; 0]%Z; B]; CSetW Z (Some (mk [2] [2; -1]%Z))]) = Some (mk [2] [2; -1]%Z).
+Proof. exact cp_history_example. Qed.
+(* TTTensor / TRTensor / TTMatrix: a history of obj[k] = core (ch_run; it fails only by an index out of range: C03_ch_run_ok) keeps the cache
+   = the validator's answer for the stored cores, the reported shape / rank and the number of cores *)
+Theorem C03_ch_history_consistent : forall (F : Type) (validate : list (tensor F) -> res (list nat * list nat)),
+  (validate = validate_tt \/ validate = validate_tr \/ validate = validate_ttm) ->
+  forall (ops : list (nat * tensor F)) (o o' : ch_obj), ch_consistent F validate o -> ch_history_ok F o ops -> ch_run F o ops = Ok o' ->
+  ch_consistent F validate o' /\ cho_shape o' = cho_shape o /\ cho_rank o' = cho_rank o /\ length (cho_cores o') = length (cho_cores o).
+Proof. exact ch_history_consistent. Qed.
+Print Assumptions C03_ch_history_consistent.
+Theorem C03_ch_run_ok : forall (F : Type) (ops : list (nat * tensor F)) (o : ch_obj),
+  Forall (fun kc : nat * tensor F => fst kc < length (cho_cores o)) ops -> exists o', ch_run F o ops = Ok o'.
+Proof. exact ch_run_ok. Qed.
+Print Assumptions C03_ch_run_ok.
+Example C03_ch_history_example :
+  exists o o', ch_new validate_tt [mk [1; 2; 1] [1; 2]%Z] = Ok o /\ ch_history_ok Z o [(0, mk [1; 2; 1] [5; 7]%Z); (0, mk [1; 2; 1] [0; 1]%Z)] /\
+    ch_run Z o [(0, mk [1; 2; 1] [5; 7]%Z); (0, mk [1; 2; 1] [0; 1]%Z)] = Ok o' /\ cho_cores o' = [mk [1; 2; 1] [0; 1]%Z].
+Proof. exact ch_history_example. Qed.
+(* TuckerTensor: histories of obj[0] = core / obj[1] = factors *)
+Theorem C03_tk_history_consistent : forall (F : Type) (ops : list (tk_op F)) (o : tk_obj), tk_consistent F o -> tk_history_ok F o ops ->
+  tk_consistent F (tk_run F o ops) /\ tko_shape (tk_run F o ops) = tko_shape o /\ tko_rank (tk_run F o ops) = tko_rank o.
+Proof. exact tk_history_consistent. Qed.
+Print Assumptions C03_tk_history_consistent.
+
 (* Parafac2Tensor((weights, factors, projections)) vs the tuple: same slice(i), slices, tensor and (slice shapes, rank), incl.
    weights=None stored as ones(rank) *)
 Theorem C03_p2_tuple_vs_wrapper : forall (F : Type) (Op : fops F), is_ring Op ->
@@ -728,19 +771,38 @@ Example C03_ttm_core_ok_hyps :
   0 < prod (flat_map (fun x => [d4b x; d4c x]) [(1, 2, 1, 2); (2, 1, 3, 1)]).
 Proof. cbv zeta. split; [eexists; vm_compute; reflexivity | split; [reflexivity | cbv; lia]]. Qed.
 
-(* the reshape / dot chain of tt_to_tensor ALONE (the code before 8b25fc6, tt_to_tensor_raw): when the first boundary rank is 1 (and the
-   mode sizes are positive) it returns a tensor only for what _validate_tt_tensor accepts -- a wrong inner rank or a wrong last boundary
-   rank always makes it raise; the hypothesis cannot be dropped (C03_before_8b25fc6_tt), which is why the validator call was added *)
-Theorem C03_tt_chain_ok_validated_partial : forall (F : Type) (Op : fops F) (cs : list (tensor F)) (t : tensor F) (ds : list (nat * nat * nat)),
+(* the reshape / dot chain of tt_to_tensor ALONE (the code before 8b25fc6, tt_to_tensor_raw), NO hypothesis on the boundary ranks (round 8;
+   closes the former C03_tt_chain_ok_validated_partial): the chain reads the first core (r0, n0, r1) as the n0 x (r0 r1) matrix, so it returns a
+   tensor only if the rank bookkeeping of _validate_tt_tensor (consecutive ranks equal, last boundary rank 1) holds for the dimension triples
+   with the first one re-read as (1, n0, r0 r1) (tt_chain_dims) - a wrong inner rank or a wrong last boundary rank always makes it raise -
+   and the tensor has the mode sizes as its shape.  With first boundary rank 1 the re-reading is the identity and that IS the validator
+   (C03_tt_chain_ok_validated_first_rank_one); a first boundary rank other than 1 is never accepted by the validator (C03_validate_tt_first_one)
+   while the chain alone may accept it (the Example: C03_before_8b25fc6_tt's cores) - which is why the validator call was added *)
+Theorem C03_tt_chain_ok_inv : forall (F : Type) (Op : fops F) (cs : list (tensor F)) (t : tensor F) (ds : list (nat * nat * nat)),
+  tt_to_tensor_raw Op cs = Ok t -> all_shape3 cs = Ok ds -> 0 < prod (map d3b ds) ->
+  chain_ok 1 (tt_chain_dims ds) = true /\ d3c (last (tt_chain_dims ds) (0, 0, 0)) = 1 /\ shape t = map d3b ds.
+Proof. exact tt_chain_ok_inv. Qed.
+Print Assumptions C03_tt_chain_ok_inv.
+Theorem C03_tt_chain_ok_validated_first_rank_one : forall (F : Type) (Op : fops F) (cs : list (tensor F)) (t : tensor F) (ds : list (nat * nat * nat)),
   tt_to_tensor_raw Op cs = Ok t -> all_shape3 cs = Ok ds -> d3a (hd (0, 0, 0) ds) = 1 -> 0 < prod (map d3b ds) ->
   validate_tt cs = Ok (map d3b ds, map d3a ds ++ [1]).
-Proof. exact tt_ok_validated_partial. Qed.
-Print Assumptions C03_tt_chain_ok_validated_partial.
+Proof. exact tt_chain_ok_validated_first_one. Qed.
+Print Assumptions C03_tt_chain_ok_validated_first_rank_one.
+Theorem C03_validate_tt_first_one : forall (F : Type) (cs : list (tensor F)) (ds : list (nat * nat * nat)) (shp rk : list nat),
+  all_shape3 cs = Ok ds -> validate_tt cs = Ok (shp, rk) -> d3a (hd (0, 0, 0) ds) = 1.
+Proof. exact validate_tt_first_one. Qed.
+Print Assumptions C03_validate_tt_first_one.
 Example C03_tt_ok_hyps :
   let cs := [mk [1; 2; 2] [1; 2; 3; 4]%Z; mk [2; 3; 1] [1; 0; 2; -1; 1; 1]%Z] in
   (exists t, tt_to_tensor_raw Zops cs = Ok t) /\ all_shape3 cs = Ok [(1, 2, 2); (2, 3, 1)] /\ d3a (hd (0, 0, 0) [(1, 2, 2); (2, 3, 1)]) = 1 /\
   0 < prod (map d3b [(1, 2, 2); (2, 3, 1)]).
 Proof. cbv zeta. split; [eexists; vm_compute; reflexivity | repeat split; cbv; lia]. Qed.
+Example C03_tt_chain_ok_inv_example :
+  let cs := [mk [2; 3; 1] [1; 2; 3; 4; 5; 6]%Z; mk [2; 4; 1] [1; 0; -1; 2; 1; 1; 0; 3]%Z] in
+  let ds := [(2, 3, 1); (2, 4, 1)] in
+  (exists t, tt_to_tensor_raw Zops cs = Ok t) /\ all_shape3 cs = Ok ds /\ 0 < prod (map d3b ds) /\
+  chain_ok 1 (tt_chain_dims ds) = true /\ d3c (last (tt_chain_dims ds) (0, 0, 0)) = 1 /\ validate_tt cs = Err.
+Proof. exact tt_chain_ok_inv_example. Qed.
 
 (* ------------------------------------------------------------------ cp_to_unfolded with a negative mode *)
 (* cp_to_unfolded_neg w fs k models cp_to_unfolded(cp, mode=-k) (repaired in /repo by b8d05d5).  Order 1: -1 is mode 0 and every other
@@ -1150,6 +1212,67 @@ Theorem C03_validate_parafac2_h_real : forall (F : Type) (Op : fops F) (w : opti
   validate_parafac2_h Op (fun x => x) w fs ps = validate_parafac2 Op w fs ps.
 Proof. exact @validate_parafac2_h_real. Qed.
 Print Assumptions C03_validate_parafac2_h_real.
+(* the CURRENT validator accepts exactly: three factors, A with one row per projection and R columns, B and C matrices with R columns, every
+   projection a matrix whose R columns are orthonormal in the HERMITIAN sense (sum_i cj(P[i,r]) P[i,s] = delta_rs: orthonormal_h), weights of
+   leading length R; it reports the slice shapes (J_i, K) and R.  Any carrier whose order test decides equality (C03_feqb_Z, C03_feqb_GI), any
+   map cj.  And whether a set is accepted depends on the shapes of A, B, C, weights and on the projections only *)
+Theorem C03_validate_parafac2_h_iff : forall (F : Type) (Op : fops F) (cj : F -> F),
+  (forall x y : F, feqb Op x y = true <-> x = y) ->
+  forall (w : option (tensor F)) (fs ps : list (tensor F)) (shps : list (list nat)) (R : nat),
+  validate_parafac2_h Op cj w fs ps = Ok (shps, R) <->
+  exists A B C K,
+    fs = [A; B; C] /\ (exists rest, shape A = length ps :: R :: rest) /\ (exists q, shape B = [q; R]) /\ shape C = [K; R] /\
+    Forall2 (proj_ok_h F Op cj R K) ps shps /\
+    match w with None => True | Some wt => exists rest, shape wt = R :: rest end.
+Proof. exact validate_parafac2_h_iff. Qed.
+Print Assumptions C03_validate_parafac2_h_iff.
+Theorem C03_validate_parafac2_h_shapes_only : forall (F : Type) (Op : fops F) (cj : F -> F) (w w' : option (tensor F)) (fs fs' ps : list (tensor F)),
+  map (@shape F) fs = map (@shape F) fs' -> option_map (@shape F) w = option_map (@shape F) w' ->
+  validate_parafac2_h Op cj w fs ps = validate_parafac2_h Op cj w' fs' ps.
+Proof. exact validate_parafac2_h_shapes_only. Qed.
+Print Assumptions C03_validate_parafac2_h_shapes_only.
+Example C03_feqb_GI : forall x y : Tenalg.GI, feqb GIops x y = true <-> x = y.
+Proof. exact feqb_GIops. Qed.
+Example C03_orthonormal_h_example :
+  let g (a b : Z) : Tenalg.GI := (a, b) in
+  let P := mk [2; 1] [g 0 1; g 0 0]%Z in
+  orthonormal_h Tenalg.GI GIops gconj P 1 /\ ~ orthonormal_h Tenalg.GI GIops (fun x => x) P 1.
+Proof. exact orthonormal_h_GI_example. Qed.
+(* reconstruction behind the CURRENT validator, any commutative ring with any map cj (round 8): the reconstruction functions look at the
+   validator's answer only to decide whether to go on (parafac2_to_tensor_from v), so whatever validate_parafac2_h accepts - e.g. unitary complex
+   projections, which the test before 0c112da rejected - is reconstructed to the defining contraction: tensor of shape (I, max_i J_i, K), block i
+   = slice i = P_i B diag(a_i w) C^T on its first J_i rows, zero below; slice(i) has the reported shape; and what it rejects has no view *)
+Theorem C03_parafac2_h_validated : forall (F : Type) (Op : fops F), is_ring Op -> forall (cj : F -> F),
+  (forall x y : F, feqb Op x y = true <-> x = y) ->
+  forall (w : option (tensor F)) (A B C : tensor F) (ps : list (tensor F)) (shps : list (list nat)) (R I : nat),
+  let v := validate_parafac2_h Op cj w [A; B; C] ps in
+  v = Ok (shps, R) -> shape A = [I; R] -> shape B = [R; R] -> w_ok F w R ->
+  exists t K, parafac2_to_tensor_from Op v w [A; B; C] ps = Ok t /\ shape C = [K; R] /\ length ps = I /\ length shps = I /\
+    Forall (fun s => s = [nth 0 s 0; K]) shps /\
+    shape t = [I; fold_right Nat.max 0 (map (fun s => nth 0 s 0) shps); K] /\
+    (forall i j k, i < I -> j < fold_right Nat.max 0 (map (fun s => nth 0 s 0) shps) -> k < K ->
+      get (f0 Op) t [i; j; k] =
+        if j <? nth 0 (nth i shps []) 0 then p2_entry F Op w A B C (nth i ps (mk [] [])) R R i j k else f0 Op) /\
+    (forall i, i < I -> exists sl, parafac2_to_slice_from Op v w [A; B; C] ps i = Ok sl /\ shape sl = nth i shps [] /\
+       forall j k, j < nth 0 (nth i shps []) 0 -> k < K -> get2 Op sl j k = p2_entry F Op w A B C (nth i ps (mk [] [])) R R i j k).
+Proof. exact parafac2_h_validated. Qed.
+Print Assumptions C03_parafac2_h_validated.
+Theorem C03_parafac2_h_rejected : forall (F : Type) (Op : fops F) (cj : F -> F) (w : option (tensor F)) (fs ps : list (tensor F)),
+  validate_parafac2_h Op cj w fs ps = Err ->
+  parafac2_to_tensor_from Op (validate_parafac2_h Op cj w fs ps) w fs ps = Err /\
+  (forall i, parafac2_to_slice_from Op (validate_parafac2_h Op cj w fs ps) w fs ps i = Err) /\
+  parafac2_to_slices_from Op (validate_parafac2_h Op cj w fs ps) w fs ps = Err.
+Proof. exact parafac2_h_rejected. Qed.
+Print Assumptions C03_parafac2_h_rejected.
+Example C03_parafac2_h_unitary_example :
+  let g (a b : Z) : Tenalg.GI := (a, b) in
+  let A := mk [1; 1] [g 2 0]%Z in let B := mk [1; 1] [g 3 0]%Z in let C := mk [2; 1] [g 1 0; g 2 0]%Z in
+  let Pu := mk [1; 1] [g 0 1]%Z in
+  validate_parafac2_h GIops gconj None [A; B; C] [Pu] = Ok ([[1; 2]], 1) /\ shape A = [1; 1] /\ shape B = [1; 1] /\
+  parafac2_to_tensor_from GIops (validate_parafac2_h GIops gconj None [A; B; C] [Pu]) None [A; B; C] [Pu] = Ok (mk [1; 1; 2] [g 0 6; g 0 12]%Z).
+Proof. exact parafac2_h_unitary_example. Qed.
+Example C03_is_ring_GI : is_ring GIops.
+Proof. exact GI_ring. Qed.
 Example C03_before_0c112da_parafac2_complex_projections :
   let g (a b : Z) : Tenalg.GI := (a, b) in
   let A := mk [1; 1] [g 2 0]%Z in let B := mk [1; 1] [g 3 0]%Z in let C := mk [2; 1] [g 1 0; g 2 0]%Z in
